@@ -10,8 +10,8 @@ use serde_json::{json, Value};
 
 use crate::driver::{CaseReport, Check};
 use crate::model::{built_edges, Kind, TestFn};
-use crate::oracle::Violation;
-use crate::single::hash_of;
+use crate::violation::Violation;
+use crate::violation::hash_of;
 use crate::tape::Tape;
 
 #[derive(Clone, Debug, PartialEq, Eq, Hash, Serialize, Deserialize)]
